@@ -18,6 +18,9 @@ SUB, PFX = "REFACTOR", "a"
 if len(sys.argv) > 2 and sys.argv[1] == "--round3":
     SUB, PFX = "REFACTOR3", "b"
     del sys.argv[1]
+if len(sys.argv) > 2 and sys.argv[1] == "--round8":
+    SUB, PFX = "REFACTOR8", "g"
+    del sys.argv[1]
 if len(sys.argv) > 2 and sys.argv[1] == "--round7":
     SUB, PFX = "REFACTOR7", "f"
     del sys.argv[1]
